@@ -3,3 +3,4 @@ pub mod tree;
 pub mod treeparse;
 pub mod history;
 pub mod histrun;
+pub mod serobs;
